@@ -595,9 +595,61 @@ def check_mixed_protocol(acc):
                         )
 
 
+class SharedBuffer(BlockMiddleware):
+    """A block middleware that hands back ONE list object for every block of a kind, refilled each time (a reused
+    scratch buffer): each block is replaced by what the list held when it was returned."""
+
+    def __init__(self, kind, extra):
+        super().__init__(allow_inplace_modification=True)
+        self.cls = KINDS[kind]
+        self.extra = extra
+        self.buf = []
+
+    def transform_block(self, block, library):
+        if type(block) is self.cls:
+            self.buf.clear()
+            self.buf.append(block)
+            if self.extra:
+                self.buf.append(extras()[2])
+            return self.buf
+        return block
+
+
+def check_shared_buffer(acc):
+    doc = PROTO_DOC + '@misc{e3, h = {3}}\n@string{s2 = "w"}\nmore text\n'
+    for kind in KINDS:
+        for extra in (False, True):
+            for route in ("transform", "parse_string", "write_string"):
+                case = {"protocol": kind, "result": "one list object refilled for every block", "extra": extra, "route": route}
+                acc.trace(2)
+                acc.case(nontrivial_key=("sharedbuf", kind, extra, route))
+                _N[0] = 0
+                exp_blocks = []
+                for b in Splitter(doc).split().blocks:
+                    exp_blocks.extend(([b, extras()[2]] if extra else [b]) if type(b) is KINDS[kind] else [b])
+                _N[0] = 0
+                if route == "transform":
+                    exp = ("ok", [canon(b) for b in exp_blocks])
+                    got = attempt(lambda: [canon(b) for b in SharedBuffer(kind, extra).transform(Splitter(doc).split()).blocks])
+                elif route == "parse_string":
+                    exp = ("ok", [canon(b) for b in exp_blocks])
+                    got = attempt(lambda: [canon(b) for b in bibtexparser.parse_string(doc, parse_stack=[SharedBuffer(kind, extra)]).blocks])
+                else:
+                    exp = attempt(lambda: write(Library(exp_blocks), None))
+                    _N[0] = 0
+                    got = attempt(lambda: bibtexparser.write_string(Splitter(doc).split(), unparse_stack=[SharedBuffer(kind, extra)]))
+                acc.step(("sharedbuf", kind, route), extra, "ok" if got[0] == "ok" else got)
+                if got != exp:
+                    acc.violation(
+                        {"oracle": "block_result_protocol", "result": "one list object refilled for every block", "expected_kind": "blocks"},
+                        {"case": case, "observed": repr(got)[:300], "expected": repr(exp)[:300]},
+                    )
+
+
 def check_protocol(acc):
     check_key_collision(acc)
     check_mixed_protocol(acc)
+    check_shared_buffer(acc)
     for kind in KINDS:
         for result, (fn, eff) in RESULTS.items():
             for route in ("transform", "parse_string", "write_string"):
